@@ -7,7 +7,8 @@ import sys, os, glob
 sys.path.insert(0, 'tools')
 import vlib, kernel_gen, globals_scan
 # generated kernel (Gen/*.v) from /repo's current tree; every check regenerates it again
-print(kernel_gen.regenerate()); print(kernel_gen.regenerate(kernel_gen.CT_FUNCS))
+kernel_gen.prefetch(kernel_gen.all_lists())
+for _l in kernel_gen.all_lists(): print(kernel_gen.regenerate(_l))
 try: globals_scan.write_gen(globals_scan.scan(os.path.join(vlib.BUILD, 'setup_globals')))
 except Exception as e: print('setup: globals scan failed', e)
 rc, o = vlib.coq_make([], timeout=5400)
